@@ -5,45 +5,99 @@ import CkbVerif.Model.Cycles
 namespace CkbVerif.Driver.C05
 open CkbVerif.Driver CkbVerif.Cycles
 
+/-- one script group as measured by the harness with unlimited one-shot runs: cost (for a failing
+group: cycles up to the failure), exit code, and whether it is the built-in TYPE_ID system script -/
+structure GSpec where
+  cost : Nat
+  code : Int
+  tid : Bool := false
+
 structure St where
-  /-- (cost, exit code) per script group, measured by the harness with unlimited one-shot runs -/
-  groups : List (Nat × Int) := []
+  groups : List GSpec := []
 
 def parseInt? (s : String) : Option Int :=
   if s.startsWith "-" then (parseNat? (s.drop 1).toString).map (fun n => - (n : Int))
   else (parseNat? s).map (fun n => (n : Int))
 
-def parseGroups? (s : String) : Option (List (Nat × Int)) :=
+def parseGroups? (s : String) : Option (List GSpec) :=
   if s = "-" then some [] else
   (s.splitOn ",").mapM fun it =>
     match it.splitOn ":" with
     | [a, b] => do
       let c ← parseNat? a
       let e ← parseInt? b
-      pure (c, e)
+      pure { cost := c, code := e }
+    | [a, b, "t"] => do
+      let c ← parseNat? a
+      let e ← parseInt? b
+      pure { cost := c, code := e, tid := true }
     | _ => none
 
-def showRes : Except Err Nat → String
+/-- the cost the MODEL uses for a group: measured for VM groups, the translator's
+`TYPE_ID_CYCLES` for the system script -/
+def GSpec.modelCost (g : GSpec) : Nat := if g.tid then (typeIdGroup g.code).cost else g.cost
+
+/-- index of the first failing group (the group a `ValidationFailure` is attributed to) -/
+def failIdx (gs : List GSpec) : Nat := (gs.takeWhile (fun g => g.code == 0)).length
+
+/-- index of the first group that does not fit into budget `b` (the group `verify` attributes
+`ExceededMaximumCycles` to) -/
+def shortIdx : List GSpec → Nat → Nat
+  | [], _ => 0
+  | g :: rest, b => if g.modelCost ≤ b then 1 + shortIdx rest (b - g.modelCost) else 0
+
+/-- class + payload + attributed group -/
+def showRes (gs : List GSpec) (budget : Nat) : Except Err Nat → String
   | .ok n => s!"ok {n}"
-  | .error (.exceeded _) => "exceeded"
+  | .error (.exceeded l) => s!"exceeded {l} @{shortIdx gs budget}"
+  | .error (.validation c) => s!"fail {c} @{failIdx gs}"
+  | .error .other => "other"
+  | .error .overflow => "overflow"
+
+/-- class + payload -/
+def showPlain : Except Err Nat → String
+  | .ok n => s!"ok {n}"
+  | .error (.exceeded l) => s!"exceeded {l}"
   | .error (.validation c) => s!"fail {c}"
   | .error .other => "other"
   | .error .overflow => "overflow"
 
-/-- traces: every cycle a split point for small groups, one step otherwise; group `idx` split at `p` -/
-def mkGroups (gs : List (Nat × Int)) (split : Option (Nat × Nat)) : List Group :=
-  (List.range gs.length).zip gs |>.map fun (i, (c, e)) =>
+def showVR (gs : List GSpec) : Except Err VResult → String
+  | .ok (.completed n) => s!"ok {n}"
+  | .ok (.suspended st) => s!"suspended {st.current}"
+  | .error (.exceeded l) => s!"exceeded {l} @?"
+  | .error (.validation c) => s!"fail {c} @{failIdx gs}"
+  | .error .other => "other"
+  | .error .overflow => "overflow"
+
+/-- traces: every cycle a split point for small groups, one step otherwise; group `idx` split at `p`;
+the TYPE_ID system script is always the one-step group `typeIdGroup` -/
+def mkGroups (gs : List GSpec) (split : Option (Nat × Nat)) : List Group :=
+  (List.range gs.length).zip gs |>.map fun (i, g) =>
+    if g.tid then typeIdGroup g.code else
+    let c := g.cost
+    let e := g.code
     match split with
     | some (idx, p) =>
       if i = idx ∧ 0 < p ∧ p < c then ⟨[p, c - p], e⟩ else ⟨[c], e⟩
     | none => if c ≤ 4096 then ⟨List.replicate c 1, e⟩ else ⟨[c], e⟩
 
+/-- the state the implementation was observed in: group `idx`, `p` cycles consumed inside it -/
+def stateAt (gs : List GSpec) (idx p limit : Nat) : Option TxState :=
+  match gs[idx]? with
+  | none => none
+  | some g =>
+    let c := g.modelCost
+    let before := ((gs.take idx).map (·.modelCost)).sum
+    some ⟨idx, ⟨p, if 0 < p ∧ p < c then [c - p] else if p = 0 then [c] else []⟩, before, limit⟩
+
 /-- drive the resumable API to completion: first limit, then `resume_from_state` with the following
-limits (the last one repeated) -/
-def driveChunks (gs : List Group) : List Nat → Nat → Option TxState → Except Err Nat
-  | _, 0, _ => .error .other
-  | limits, fuel + 1, st =>
-    let l := limits.headD 1
+limits (the last one repeated). As in the harness, a call that made no progress (a limit below the
+next atomic step) is followed by calls with a doubling extra allowance until the run moves again. -/
+def driveChunks (gs : List Group) : List Nat → Nat → Option TxState → Nat → Except Err Nat
+  | _, 0, _, _ => .error .other
+  | limits, fuel + 1, st, boost =>
+    let l := limits.headD 1 + boost
     let more := if limits.length > 1 then limits.tail else limits
     let r := match st with
       | none => resumableVerify gs l
@@ -51,60 +105,68 @@ def driveChunks (gs : List Group) : List Nat → Nat → Option TxState → Exce
     match r with
     | .error e => .error e
     | .ok (.completed n) => .ok n
-    | .ok (.suspended s) => driveChunks gs more fuel (some s)
+    | .ok (.suspended s) =>
+      let same := match st with
+        | some s0 => s0.current == s.current && s0.state.consumed == s.state.consumed
+        | none => false
+      driveChunks gs more fuel (some s) (if same then max (boost * 2) 1 else 0)
 
 def step (s : St) (ts : List String) : St × String :=
-  match ts with
-  | ["prog", _, g] =>
-    match parseGroups? g with
-    | some g => ({ groups := g }, "ok")
-    | none => (s, "bad-op")
-  | "note" :: _ => (s, "ok")
-  | ["verify", b] =>
-    match parseNat? b with
-    | some b => (s, showRes (verify (mkGroups s.groups (some (0, 0))) b))
-    | none => (s, "bad-op")
-  | ["chunks", l] =>
-    match parseNatList? l with
-    | some ls =>
-      let small := s.groups.all (fun g => g.1 ≤ 4096)
-      if small then
-        let gs := mkGroups s.groups none
-        let total := (s.groups.map (·.1)).sum
-        (s, showRes (driveChunks gs ls (total + s.groups.length + ls.length + 8) none))
-      else
-        -- `chunked_eq_unchunked`: a run driven to completion gives the unlimited one-shot result
-        (s, showRes (verify (mkGroups s.groups (some (0, 0))) (U64 - 1)))
-    | none => (s, "bad-op")
-  | ["complete", l, b, idx, p] =>
-    -- the suspended state is the one observed on the implementation (group `idx`, `p` cycles consumed
-    -- inside it; the scheduler may overshoot a small limit, so the state is an input, not recomputed)
-    match parseNats? [l, b, idx, p] with
-    | some [_, b, idx, p] =>
-      let gs := mkGroups s.groups (some (idx, p))
-      let before := ((s.groups.take idx).map (·.1)).sum
-      match s.groups[idx]? with
-      | none => (s, "bad-op")
-      | some (c, _) =>
-        let st : TxState := ⟨idx, ⟨p, if 0 < p ∧ p < c then [c - p] else if p = 0 then [c] else []⟩, before, 0⟩
-        (s, showRes (complete gs st b))
-    | _ => (s, "bad-op")
-  | ["chunks", l, dev] =>
-    -- known finding F20: the implementation's deviation (VM-level, outside the accounting model) is
-    -- reported by the harness oracle; the model echoes the observed class so that the streams align
+  -- a deviation of the implementation that lies outside the accounting model (VM level: F20) is
+  -- reported by the harness oracle; the model echoes the observed class so that the streams align
+  match ts.getLast? with
+  | some dev =>
     if dev.startsWith "dev=" then (s, ((dev.drop 4).toString.replace "_" " ")) else
-    let _ := l
-    (s, "bad-op")
-  | ["signal", b, idx, p] =>
-    match parseNats? [b, idx, p] with
-    | some [b, idx, p] =>
-      let gs := mkGroups s.groups (some (idx, p))
-      -- cycles of the groups before `idx` do not count for the pause point inside group `idx`
-      let sched := (List.range gs.length).zip gs |>.map fun (i, g) =>
-        (g, if i = idx then [some p] else ([] : List (Option Nat)))
-      (s, showRes (signalVerify b sched 0))
+    match ts with
+    | ["prog", _, g] =>
+      match parseGroups? g with
+      | some g =>
+        -- the harness measured the system script's cost; the model's comes from script/src/type_id.rs
+        if g.all (fun x => !x.tid || x.cost == x.modelCost) then ({ groups := g }, "ok")
+        else ({ groups := g }, "typeid-cost-mismatch")
+      | none => (s, "bad-op")
+    | "note" :: _ => (s, "ok")
+    | [op, b] =>
+      if op = "verify" ∨ op = "ctx-verify" then
+        match parseNat? b with
+        | some b => (s, showRes s.groups b (verify (mkGroups s.groups (some (0, 0))) b))
+        | none => (s, "bad-op")
+      else if op = "rv" then
+        match parseNat? b with
+        | some l => (s, showVR s.groups (resumableVerify (mkGroups s.groups (some (0, 0))) l))
+        | none => (s, "bad-op")
+      else if op = "chunks" then
+        match parseNatList? b with
+        | some ls =>
+          let gs := mkGroups s.groups none
+          let stepsTotal := (gs.map (·.steps.length)).sum
+          (s, showRes s.groups 0 (driveChunks gs ls (stepsTotal + 70 * gs.length + ls.length + 8) none 0))
+        | none => (s, "bad-op")
+      else (s, "bad-op")
+    | [op, l, b, idx, p] =>
+      -- the suspended state is the one observed on the implementation (group `idx`, `p` cycles consumed
+      -- inside it; the scheduler may overshoot a small limit, so the state is an input, not recomputed)
+      match parseNats? [l, b, idx, p] with
+      | some [l, b, idx, p] =>
+        let gs := mkGroups s.groups (some (idx, p))
+        match stateAt s.groups idx p l with
+        | none => (s, "bad-op")
+        | some st =>
+          if op = "complete" ∨ op = "ctx-complete" then (s, showPlain (complete gs st b))
+          else if op = "resume" then (s, showVR s.groups (resumeFromState gs st b))
+          else (s, "bad-op")
+      | _ => (s, "bad-op")
+    | ["signal", b, idx, p] =>
+      match parseNats? [b, idx, p] with
+      | some [b, idx, p] =>
+        let gs := mkGroups s.groups (some (idx, p))
+        -- cycles of the groups before `idx` do not count for the pause point inside group `idx`
+        let sched := (List.range gs.length).zip gs |>.map fun (i, g) =>
+          (g, if i = idx then [some p] else ([] : List (Option Nat)))
+        (s, showPlain (signalVerify b sched 0))
+      | _ => (s, "bad-op")
     | _ => (s, "bad-op")
-  | _ => (s, "bad-op")
+  | none => (s, "bad-op")
 
 def main (_args : List String) : IO UInt32 :=
   runLines ({} : St) step
